@@ -125,10 +125,16 @@ def bodyOf (evs : List Ev) : Bytes := evs.flatMap (fun e => match e with | .body
 def headTag : Bytes := [60,104,101,97,100,62]   -- "<head>"
 def htmlWord : Bytes := [104,116,109,108]        -- "html"
 
+/-- the media type of a Content-Type value: everything before the first ';' (`strings.SplitN(v, ";", 2)[0]`) -/
+def mediaType (ct : Bytes) : Bytes := ct.takeWhile (· != 59)
+
+/-- ShimBody's test for "this response is an HTML document": the media type (not a parameter) mentions html -/
+def isHTMLType (ct : Bytes) : Bool := Go.contains (Go.toLower (mediaType ct)) htmlWord
+
 /-- `ShimBody`: `first` is what the first `Read` of at most 1024 bytes returned, `rest`
     the remainder of the body.  Returns the new body and whether Content-Length was dropped. -/
 def shimBody (code ct first rest : Bytes) : Bytes × Bool :=
-  if Go.contains (Go.toLower ct) htmlWord then
+  if isHTMLType ct then
     (Go.replaceFirst first headTag (headTag ++ code) ++ rest, true)
   else (first ++ rest, false)
 
